@@ -32,6 +32,8 @@ theorem sh_roundtrip (args : List Str) (h : NoNul args) : shSplit (args2sh args)
 example : NoNul ["a b".toList, [], "it's $HOME; `x` \\ \"q\" *~\n".toList, "é".toList] := by decide +kernel
 example : shSplit "a 'b c'\"\\\"d\" e\\ f".toList = some ["a".toList, "b c\"d".toList, "e f".toList] := by decide +kernel
 example : shSplit "a $b".toList = none := by decide +kernel
+-- the NUL hypothesis is needed: no shell word can carry U+0000
+example : shSplit (args2sh [[nul]]) = none := by decide +kernel
 
 /-- `args2cmd` / `escape_shell_args(style='cmd')`: the MS C runtime rules (in each of the three
     historical variants of the `""` rule) split the text into exactly the arguments -/
@@ -41,6 +43,28 @@ theorem cmd_roundtrip (v : CrtVariant) (args : List Str) (h : NoNul args) :
 
 example : crtSplit .modern (args2cmd ["a\\\\\"b c\\".toList, [], "\"".toList]) =
     ["a\\\\\"b c\\".toList, [], "\"".toList] := by decide +kernel
+
+/-- `escape_shell_args` dispatches to the two encoders (`style=None` = the empty style, on a
+    non-win32 platform, means `sh`), so the round trips hold for it as well -/
+theorem esa_sh_roundtrip (args : List Str) (h : NoNul args) :
+    ∃ t, escapeShellArgs ['s', 'h'] args = some t ∧ escapeShellArgs [] args = some t ∧
+      shSplit t = some args :=
+  ⟨args2sh args, rfl, rfl, sh_roundtrip args h⟩
+
+theorem esa_cmd_roundtrip (v : CrtVariant) (args : List Str) (h : NoNul args) :
+    ∃ t, escapeShellArgs ['c', 'm', 'd'] args = some t ∧ crtSplit v t = args :=
+  ⟨args2cmd args, rfl, cmd_roundtrip v args h⟩
+
+/-- consequently both encoders are injective: different argument lists never produce the same text -/
+theorem sh_injective (a b : List Str) (ha : NoNul a) (hb : NoNul b) (h : args2sh a = args2sh b) : a = b := by
+  have h1 := sh_roundtrip a ha
+  rw [h, sh_roundtrip b hb] at h1
+  exact (Option.some.inj h1).symm
+
+theorem cmd_injective (a b : List Str) (ha : NoNul a) (hb : NoNul b) (h : args2cmd a = args2cmd b) : a = b := by
+  have h1 := cmd_roundtrip .modern a ha
+  rw [h, cmd_roundtrip .modern b hb] at h1
+  exact h1.symm
 
 /-! ### integer ranges -/
 
@@ -56,6 +80,53 @@ theorem int_roundtrip (L : List Nat) :
 theorem format_canonical (L : List Nat) :
     ∃ rs, formatIntList L = join [','] (rs.map renderRange) ∧ Canon rs ∧ ∀ x, Covers rs x ↔ x ∈ L :=
   ⟨_, format_eq L, (runs_isort_spec L).1, (runs_isort_spec L).2⟩
+
+/-- the same, against the directly written specification `sortDedup L` = the members of `L` among
+    `0 .. max L`, in increasing order -/
+theorem int_roundtrip_eq (L : List Nat) : parseIntList (formatIntList L) = some (sortDedup L) := by
+  obtain ⟨R, hR, hs, hm⟩ := int_roundtrip L
+  rw [hR, sorted_ext R (sortDedup L) hs (sortDedup_sorted L) (fun x => by rw [hm, mem_sortDedup])]
+
+/-- the round trip also holds for `format_int_list(L, delim_space=True)` (`", "` separators) -/
+theorem int_roundtrip_delim_space (L : List Nat) :
+    parseIntList (formatIntList L true) = some (sortDedup L) := by
+  rw [parse_format_space, ← parse_format, int_roundtrip_eq]
+
+/-- canonical run lists are unique, hence `format_int_list(L)` is THE canonical range string of the
+    set of `L`: any canonical run list covering exactly `L` renders to the same text -/
+theorem format_canonical_unique (L : List Nat) (rs : List (Nat × Nat)) (hc : Canon rs)
+    (hm : ∀ x, Covers rs x ↔ x ∈ L) : formatIntList L = join [','] (rs.map renderRange) := by
+  obtain ⟨rs', h1, h2, h3⟩ := format_canonical L
+  rw [h1, canon_unique rs' rs h2 hc (fun x => by rw [h3, hm])]
+
+example : Canon [(1, 1), (3, 3), (5, 8), (10, 11), (15, 15)] := by
+  refine ⟨by decide, ?_⟩; simp
+
+/-- the text depends only on the set of integers (order and repetitions are irrelevant) -/
+theorem format_members_only (L M : List Nat) (h : ∀ x, x ∈ L ↔ x ∈ M) :
+    formatIntList L = formatIntList M := by
+  obtain ⟨rs, h1, h2, h3⟩ := format_canonical M
+  rw [h1]
+  exact format_canonical_unique L rs h2 (fun x => by rw [h3, h])
+
+/-- `format ∘ parse` is the identity on `format_int_list` output (it is a normal form) -/
+theorem format_parse_format (L R : List Nat) (h : parseIntList (formatIntList L) = some R) :
+    formatIntList R = formatIntList L := by
+  obtain ⟨R', h1, -, h3⟩ := int_roundtrip L
+  rw [h1] at h
+  cases h
+  exact format_members_only _ _ h3
+
+/-- `parse_int_list` reads EVERY well-formed range string (any list of `n` / `lo-hi` tokens with
+    `lo ≤ hi`, in any order, overlapping or not) as the sorted list of the integers it denotes
+    (with repetitions where tokens overlap) -/
+theorem parse_range_string (rs : List (Nat × Nat)) (h : ∀ r ∈ rs, r.1 ≤ r.2) :
+    ∃ R, parseIntList (join [','] (rs.map renderRange)) = some R ∧ R.Pairwise (· ≤ ·) ∧
+      ∀ x, x ∈ R ↔ Covers rs x :=
+  ⟨_, parse_render rs h, isort_sorted _, fun x => by rw [mem_isort, mem_expand]⟩
+
+example : parseIntList (join [','] ([(5, 8), (1, 1), (7, 9)].map renderRange)) =
+    some [1, 5, 6, 7, 7, 8, 8, 9] := by decide +kernel
 
 /-- `complement_int_list(s, a, e)` returns exactly the integers of the window `[a, e)` (clipped at 0,
     integers being non-negative) that are missing from `s`, as a canonical range string -/
